@@ -1,4 +1,4 @@
-import GV.Spec.GoTypes
+import GV.Spec.GoComparable
 /-
   GV.Model.Checks — the run-time checks GopherJS emits inline or keeps in the prelude, each as a
   function of the operand values (Int), transcribed from the code AS IT IS.
@@ -112,7 +112,7 @@ def assertConcrete (x : Iface) (target : Nat) : Option Nat :=
   | .val t _ v => if t = target then some v else none
 
 /-! ### `typ.comparable` of the prelude's type constructors (compiler/prelude/types.js `$newType`) -/
-open GV.Spec.GoTypes in
+open GV.Spec.GoComparable in
 mutual
 /-- `typ.comparable`: `$kindSlice/$kindMap/$kindFunc: typ.comparable = false` (types.js:190,211,243);
     arrays: getter `elem.comparable` (types.js:147); structs: getter `fields.every(f => f.typ.comparable)`
@@ -130,7 +130,7 @@ def fieldsEvery : Fields → Bool
   | .cons _ t rest => if tyComparable t then fieldsEvery rest else false
 end
 
-open GV.Spec.GoTypes in
+open GV.Spec.GoComparable in
 mutual
 /-- the variant that skips blank fields (`f.name === "_" || f.typ.comparable`) — NOT what the code does -/
 def tyComparableSkipBlank : Ty → Bool
@@ -147,9 +147,9 @@ end
 
 /-- `a == b` for two interface values of identical dynamic type `t` holding equal values: `$interfaceIsEqual`
     panics iff `!a.constructor.comparable` (prelude.js:566) -/
-def ifaceEqSameType (t : GV.Spec.GoTypes.Ty) : Option Bool := if tyComparable t then some true else none
+def ifaceEqSameType (t : GV.Spec.GoComparable.Ty) : Option Bool := if tyComparable t then some true else none
 
 /-- `m[k] = v` with `k` an interface value of dynamic type `t`: `$ifaceKeyFor` panics iff `!c.comparable` (types.js:41-50) -/
-def ifaceKeyFor (t : GV.Spec.GoTypes.Ty) : Option Unit := if tyComparable t then some () else none
+def ifaceKeyFor (t : GV.Spec.GoComparable.Ty) : Option Unit := if tyComparable t then some () else none
 
 end GV.Checks
